@@ -719,6 +719,12 @@ class gear(trapezoidal):
 
     """
 
+    def solve(self, *args, **kwargs):
+        """a new integration starts without history (first step is trapezoidal); restart() keeps it"""
+        if hasattr(self, "_lastresidual"):
+            del self._lastresidual
+        return trapezoidal.solve(self, *args, **kwargs)
+
     def step(self, field, dtloc):
         """
 
